@@ -258,7 +258,7 @@ Proof.
       cbn [fst snd]. rewrite !app_length. unfold width_ok in W', Wn. rewrite Forall_forall in W', Wn.
       rewrite (W' a (in_combine_l _ _ _ _ I)), (Wn b (in_combine_r _ _ _ _ I)). reflexivity.
     + (* rows: (r' ++ rn) against (r, rn) *)
-      clear Ed E1 E2 E3. revert F' L' L W' Wn. generalize (rows res') as R'. generalize (rows res) as R. generalize (rows new) as Rn.
+      clear Ed E1 E2 E3. unfold width_ok in W', Wn. revert F' L' L W' Wn. generalize (rows res') as R'. generalize (rows res) as R. generalize (rows new) as Rn.
       intros Rn R R' F'. revert Rn. induction F' as [|r' r R' R Hr F' IH]; intros Rn L' L W' Wn; destruct Rn as [|rn Rn]; simpl in *; try discriminate; constructor.
       * intros x. cbn [fst snd]. inversion W' as [|? ? Lr' W'']; subst. inversion Wn as [|? ? Lrn Wn'']; subst.
         destruct (mem x (cols new)) eqn:M.
@@ -276,4 +276,48 @@ Proof.
       cbn [fst snd]. apply row_fold_length. unfold width_ok in Wr. rewrite Forall_forall in Wr. apply Wr. eapply in_combine_l, I.
     + rewrite <- (map_id (combine (rows res) (rows new))) at 2. apply Forall2_map_same. intros [a b] I x. cbn [fst snd].
       apply row_fold_get. unfold width_ok in Wr. rewrite Forall_forall in Wr. apply Wr. eapply in_combine_l, I.
+Qed.
+
+(* ------------------------------------------------------------------ the non-windowed extend *)
+Lemma Forall2_change_r {A B C D} (P : A -> C -> Prop) (Q : A -> D -> Prop) (f : B -> C) (g : B -> D) l m :
+  (forall a b, In b m -> P a (f b) -> Q a (g b)) -> Forall2 P l (map f m) -> Forall2 Q l (map g m).
+Proof.
+  revert l. induction m as [|b m IH]; intros l H F; simpl in *; inversion F; subst; constructor.
+  - apply H; [left; reflexivity|assumption].
+  - apply IH; [|assumption]. intros a b' I. apply H. right. exact I.
+Qed.
+
+Lemma get_cons_other k ks (v : val) vs x : x <> k -> get (k :: ks) (v :: vs) x = get ks vs x.
+Proof. intros N. unfold get. simpl. destruct (eq_dec x k); [congruence|]. destruct (index_of x ks); reflexivity. Qed.
+Lemma get_cons_same k ks (v : val) vs : get (k :: ks) (v :: vs) k = v.
+Proof. unfold get. simpl. destruct (eq_dec k k); [reflexivity|congruence]. Qed.
+
+Lemma last_assign_nodup {X} (F : string * X -> val) (ops : list (string * X)) x :
+  NoDup (map fst ops) ->
+  last_assign F ops x = if mem x (map fst ops) then Some (get (map fst ops) (map F ops) x) else None.
+Proof.
+  induction ops as [|ke t IH]; intros N; cbn [last_assign map mem]; [reflexivity|].
+  inversion N as [|? ? Nk Nt]; subst. rewrite (IH Nt). destruct (eq_dec x (fst ke)) as [->|ne].
+  - replace (mem (fst ke) (map fst t)) with false by (symmetry; apply mem_false, Nk). rewrite get_cons_same. reflexivity.
+  - rewrite (get_cons_other _ _ _ _ _ ne). destruct (mem x (map fst t)); reflexivity.
+Qed.
+
+Lemma px_extend_plain_eqv ops t u :
+  (0 < nrows t)%nat -> ops <> [] -> NoDup (map fst ops) -> width_ok t ->
+  px_extend_plain ops t = Some u -> tab_eqv u (sem_extend fl_pandas ops t) /\ width_ok u.
+Proof.
+  intros P Ne N W. unfold px_extend_plain.
+  destruct (columns_to_frame _ _) as [nf|] eqn:Ec; cbn [obind]; [|discriminate].
+  pose proof (columns_to_frame_extend _ _ _ P Ne Ec) as En. rewrite En. intros H.
+  assert (width_ok (mktable (map fst ops) (new_rows ops t))) as Wn.
+  { unfold width_ok, new_rows. cbn [cols rows]. apply Forall_forall. intros r I. apply in_map_iff in I. destruct I as [r0 [<- _]].
+    rewrite !map_length. reflexivity. }
+  apply add_columns_spec in H; [|exact W|exact Wn|unfold nrows, new_rows; cbn [rows]; rewrite map_length; reflexivity].
+  destruct H as [S [Wu F]]. split; [|exact Wu]. cbn [cols rows] in *.
+  split; cbn [cols rows sem_extend].
+  - intros x. rewrite (S x). unfold ext_cols. rewrite In_fold_add_end, in_app_iff. tauto.
+  - unfold new_rows in F. rewrite combine_self_map in F. revert F. apply Forall2_change_r. intros ru r Ir Hr x. cbn [fst snd] in Hr.
+    rewrite (Hr x). rewrite extend_row_get by (unfold width_ok in W; rewrite Forall_forall in W; apply W, Ir).
+    rewrite (last_assign_nodup (fun ke => eval_expr fl_pandas (cols t) r (snd ke)) ops x N).
+    destruct (mem x (map fst ops)); reflexivity.
 Qed.
